@@ -82,6 +82,14 @@ CHECKS = [
              "implies the controller's criterion for that gradient (or a vanishing residual); one controller object re-used "
              "for consecutive solves included.",
      "design_ref": "DESIGN.md 4/C14"},
+    {"property_id": "C16", "engine": "A", "category": "other", "technique": TECH_A + "; the energy is an UNINTERPRETED function (fresh symbol per evaluation + congruence), all feasible paths of the real line search explored",
+     "note": NOTE_A + " Bounded by the iteration limits passed to LineSearch (max_iterations <= 3, max_zoom_iterations = 1; deeper zooms best effort in thorough).",
+     "text": "Bounded symbolic verification of LineSearch (perform_line_search, _zoom, _quadmin, _cubicmin), SteepestDescent / "
+             "RelaxedNewton (DescentMinimizer.__call__) and L_BFGS vs VL_BFGS against an uninterpreted energy: for EVERY energy "
+             "function, start, direction, initial step and f_{k-1}, on every feasible path that reports success z3 proves both "
+             "strong Wolfe conditions for the returned point (with the code's own c1, c2 and with non-default ones); energies "
+             "handed to the controller never increase; L_BFGS and VL_BFGS directions coincide for any history with s.y > 0.",
+     "design_ref": "DESIGN.md 4/C16"},
 ]
 
 ALL = [f"C{i:02d}" for i in range(1, 37)]
